@@ -8,6 +8,7 @@ import (
 	"runtime"
 	"strconv"
 	"strings"
+	"sync"
 	"sync/atomic"
 
 	enc "github.com/named-data/ndnd/std/encoding"
@@ -24,8 +25,19 @@ type panicInfo struct {
 var reIdx = regexp.MustCompile(`\[[^\]]*\]`)
 var reLen = regexp.MustCompile(` with (length|capacity) \d+`)
 
+var normCache sync.Map
+
 func normPanic(r any) string {
-	s := fmt.Sprint(r)
+	raw := fmt.Sprint(r)
+	if v, ok := normCache.Load(raw); ok {
+		return v.(string)
+	}
+	v := normPanicSlow(raw)
+	normCache.Store(raw, v)
+	return v
+}
+
+func normPanicSlow(s string) string {
 	s = strings.TrimPrefix(s, "runtime error: ")
 	s = reIdx.ReplaceAllString(s, "")
 	s = reLen.ReplaceAllString(s, "")
